@@ -26,7 +26,6 @@ type mpFam struct {
 
 func init() { families["mp"] = func() Family { return &mpFam{} } }
 
-
 func (f *mpFam) Setup(cfg M, rng *rand.Rand) {
 	f.L = int(geti0(cfg, "L", 6))
 	f.maps = [][3]string{
